@@ -1158,7 +1158,8 @@ class RewritingContext:
 
             functions_by_uuid = {func.uuid: func for func in self._functions}
             sorted_blocks = sorted(
-                self._module.byte_blocks, key=lambda b: b.address or 0
+                self._module.byte_blocks,
+                key=lambda b: (b.address or 0, b.size),
             )
 
             for func in self._function_insertions:
